@@ -202,3 +202,9 @@ impl LeafRO for BigPay {
         self.pay.val ^ self.pad[1199] as u32
     }
 }
+
+/// an implementor that enables only ONE of the two aliased instantiations of `Getter<T>` in AliasGrp
+pub struct Sh8(pub u32);
+impl Getter<u8> for Sh8 { fn fetch(&self) -> u8 { self.0 as u8 ^ 0x18 } }
+impl MainT for Sh8 { fn main_t(&self) -> u32 { self.0 ^ 0xA8 } }
+cglue_impl_group!(Sh8, AliasGrp, { Getter<u8> = Zeta });
